@@ -1,13 +1,24 @@
 From Coq Require Import List Arith.
 Import ListNotations.
-From V Require Import Base.Bytes Base.Obs Model.Depth Gen.Sites_C11.
-(* an include graph rendered from its root file, the depth limit read from the source *)
-Record case := { c_files : files; c_root : nat }.
+From V Require Import Base.Bytes Base.Obs Model.Depth Model.LayoutSlots Gen.Sites_C11.
+(* an include graph rendered from its root file, the depth limit read from the source; or a table of slot
+   contents a page hands to its layout, and that layout *)
+Inductive case :=
+| CGraph (c_files : files) (c_root : nat)
+| CSlots (t : ltable) (layout : list litem).
 (* a chain f0 -> f1 -> ... -> f(k) written compactly *)
 Definition chain (k : nat) : files := map (fun i => [IInc (S i)]) (seq 0 k) ++ [[]].
 Definition run (c : case) : obs :=
-  match render (c_files c) max_include_depth (c_root c) with
-  | Ok b => OL [OS "ok"; OA b]
-  | ErrDepth => OL [OS "depth"]
-  | ErrMissing => OL [OS "missing"]
+  match c with
+  | CGraph fs root =>
+      match render fs max_include_depth root with
+      | Ok b => OL [OS "ok"; OA b]
+      | ErrDepth => OL [OS "depth"]
+      | ErrMissing => OL [OS "missing"]
+      end
+  | CSlots t layout =>
+      match layout_slots t layout with
+      | Some ids => OL [OS "ok"; OL (map ON ids)]
+      | None => OL [OS "out-of-fuel"]
+      end
   end.
